@@ -126,6 +126,14 @@ CLAIMED = {
         note=TRUST + ". Text equality is decided in the harness (RDF by graph isomorphism). Known finding "
              "KF-unified-registers excluded by predicate.",
         ref="3 C13"),
+    "C14": dict(
+        text="(A)+(B) MC_Ser mode graph: bundle-free documents of 3-4 records from a menu of declared / undeclared "
+             "endpoints, repeated identifiers (entity+agent), parallel relations, self-loops, relations lacking an "
+             "endpoint, n-ary relations; (C) prov_to_graph's nodes (kind, id, inferred?) and edges (endpoints, "
+             "relation) and graph_to_prov's content are compared by TLC with GraphOf / UnifiedSpec written in TLA+ "
+             "from the statement.",
+        note=TRUST + ". Nodes and edges are read through networkx's public API.",
+        ref="3 C14"),
 }
 for _c in CLAIMED.values():
     _c.setdefault("technique", TECH)
